@@ -188,6 +188,7 @@ func realOps(ops []string) []string {
 // firstDiff compares the implementation's and the model's answers. "unsupported" from the model skips the op.
 func firstDiff(ops, impl, model []string) *Diff {
 	ro := realOps(ops)
+	var internal *Diff
 	for i := range ro {
 		if i >= len(impl) || i >= len(model) {
 			return &Diff{Index: i, Op: ro[i], Impl: "<missing>", Model: "<missing>", Kind: "obs"}
@@ -198,13 +199,14 @@ func firstDiff(ops, impl, model []string) *Diff {
 		io, ii := splitAns(impl[i])
 		mo, mi := splitAns(model[i])
 		if io != mo {
+			// an observable difference anywhere in the case wins over an earlier internal one
 			return &Diff{Index: i, Op: ro[i], Impl: impl[i], Model: model[i], Kind: "obs"}
 		}
-		if ii != mi {
-			return &Diff{Index: i, Op: ro[i], Impl: impl[i], Model: model[i], Kind: "internal"}
+		if ii != mi && internal == nil {
+			internal = &Diff{Index: i, Op: ro[i], Impl: impl[i], Model: model[i], Kind: "internal"}
 		}
 	}
-	return nil
+	return internal
 }
 
 // runImpl runs a case on the implementation with a watchdog.
@@ -263,7 +265,10 @@ type Report struct {
 
 func firstWord(s string) string {
 	if i := strings.IndexByte(s, ' '); i >= 0 {
-		return s[:i]
+		s = s[:i]
+	}
+	if len(s) > 12 {
+		return "<data>"
 	}
 	return s
 }
